@@ -811,6 +811,7 @@ def validate_asm(run, pid, isa, cases, label):
     run.add_mc(r, label)
     run.add_traces(len(cases))
     byid = {c["id"]: c for c in cases}
+    verdicts = {}
     for cid, clause, rest in rejects:
         c = byid[cid]
         pos, ej, oj = (rest + [0, "", ""])[:3]
@@ -826,8 +827,8 @@ def validate_asm(run, pid, isa, cases, label):
             what += ": " + c["obs"]["err"]
         elif clause == "not-an-instruction":
             what += ": classified as %s" % c["obs"]["kinds"]
-        run.fail(sig, what, c)
-    return rejects
+        verdicts[cid] = run.fail(sig, what, c)
+    return [(cid, clause, rest, verdicts[cid]) for cid, clause, rest in rejects]
 
 
 def validate_files(run, pid, isa, cases, label):
@@ -838,6 +839,7 @@ def validate_files(run, pid, isa, cases, label):
     run.add_mc(r, label)
     run.add_traces(len(cases))
     byid = {c["id"]: c for c in cases}
+    verdicts = {}
     for cid, clause, _ in rejects:
         c = byid[cid]
         sig = "%s:file:%s:%s" % (pid, clause, c["origin"])
@@ -848,8 +850,8 @@ def validate_files(run, pid, isa, cases, label):
         keep = dict(c)
         if len(keep["file"]) > 60:
             keep = {"id": c["id"], "origin": c["origin"], "path": c.get("path"), "note": "file too long to inline"}
-        run.fail(sig, what, keep)
-    return rejects
+        verdicts[cid] = run.fail(sig, what, keep)
+    return [(cid, clause, rest, verdicts[cid]) for cid, clause, rest in rejects]
 
 
 def _asm_case(job, obs, via):
@@ -949,9 +951,11 @@ def binding_selftest(run, pid, isa, acases, fcases, rejected_a, rejected_f):
 
 
 def _nontrivial(run, isa, case):
-    ks = [o["k"] for o in case["ops"]]
-    if any(k != "reg" for k in ks) or any(shape_of(isa, o) != "reg" and isa == "aarch64" and o["k"] == "reg" and (o["shape"] or o["pred"] or o["num"] < 0) for o in case["ops"]):
-        run.mark(case["text"])
+    """distinct rendered instruction line with at least one operand that is not a plain register"""
+    for o in case["ops"]:
+        if o["k"] != "reg" or (isa == "aarch64" and (o["shape"] or o["pred"] or o["num"] < 0 or o["index"] >= 0)):
+            run.mark(case["text"])
+            return
 
 
 def run_check(pid, isa, tier, seed):
@@ -970,8 +974,8 @@ def run_check(pid, isa, tier, seed):
     frows = emit_files(run, tier, pid.lower())
     regnames = sorted(r["ast"]["name"] for r in rows if r["ast"]["k"] == "reg") if isa == "x86" else None
     # ---- R2/R3 single lines through parse_line
-    ljobs = lattice_jobs(isa, rows, rnd, 2, 2 if quick else 4)
-    rjobs = random_jobs(isa, rnd, regnames, 1500 if quick else 15000)
+    ljobs = lattice_jobs(isa, rows, rnd, 2, 2 if quick else 6)
+    rjobs = random_jobs(isa, rnd, regnames, 1500 if quick else 40000)
     lobs = _parallel(_work_lines, isa, ljobs + rjobs)
     acases = [_asm_case(j, lobs[j["id"]], "parse_line") for j in ljobs + rjobs]
     # ---- R2/R3 files through parse_file
@@ -981,7 +985,7 @@ def run_check(pid, isa, tier, seed):
         j = file_job(isa, "T%d" % i, lines, rnd.random() < 0.5, "tlc")
         j["expected"] = fr["out"]
         fjobs.append(j)
-    for i in range(150 if quick else 1500):
+    for i in range(150 if quick else 3000):
         fjobs.append(file_job(isa, "RF%d" % i, random_file(isa, rnd, regnames), rnd.random() < 0.5, "random"))
     fjobs += [j for j in repo_file_jobs(isa, env.REPO) if not j["id"].endswith(".copy.s")]
     fobs = _parallel(_work_files, isa, fjobs, chunk=60)
@@ -995,8 +999,8 @@ def run_check(pid, isa, tier, seed):
     # ---- TLC decides
     rej_a = validate_asm(run, pid, isa, acases + facases, "Trace_AsmSyntax_%s" % isa) or []
     rej_f = validate_files(run, pid, isa, fcases, "Trace_ParseFile_%s" % isa) or []
-    rejected_files = {cid for cid, _, _ in rej_f}
-    binding_selftest(run, pid, isa, acases + facases, fcases, {cid for cid, _, _ in rej_a}, rejected_files)
+    rejected_files = {r[0] for r in rej_f}
+    binding_selftest(run, pid, isa, acases + facases, fcases, {r[0] for r in rej_a}, rejected_files)
     for j in fjobs:
         if "agrees_with_tlc_out" in j and j["agrees_with_tlc_out"] != (j["id"] not in rejected_files):
             run.divergence("trace-spec-vs-emitted-expectation", {"id": j["id"], "file": [l["text"] for l in j["lines"]]})
@@ -1055,5 +1059,6 @@ def replay_check(pid, isa, path):
     else:
         print("replay file carries no inline case (long repository file): run the check itself")
         return 2
-    print("still failing" if rej else "no longer failing")
+    rej = [r for r in (rej or []) if r[3] != "known"]
+    print("still failing" if rej else "no longer failing (or only a known finding)")
     return 1 if rej else 0
